@@ -14,6 +14,7 @@ import Martian.Equiv
 import Martian.EquivMeaning
 import Proofs.Equiv
 import Proofs.EquivStructs
+import Proofs.EquivFuel
 import Proofs.EquivLockLTS
 import Proofs.EquivLockLTSOld
 import Gen.Facts
@@ -108,6 +109,30 @@ theorem equiv_trans (n : Nat) (T U W : Tab) (c d e : Call)
     (((equivCall_iff_sem_eq n T U c d hT hU hc hd hcc hdc).mp h1).trans
       ((equivCall_iff_sem_eq n U W d e hU hW hd he hdc hec).mp h2))
 
+/-- **sem_fuel_stable** (fuel adequacy, audit LOW-1).  `semCall` is fuel-bounded and is
+`.cut` at fuel 0.  Whenever the unfolding with EXPLICIT fuel exhaustion (`semCallO`)
+succeeds at a fuel `n` — nothing was cut — `semCall` is that meaning at `n` and at
+every larger fuel.  The driver evaluates `semCallO (Prog.fuel a b)` for both programs
+of every pair (7th field of `C15.equiv`); a `none` is a violation of the tie. -/
+theorem sem_fuel_stable (n k : Nat) (T : Tab) (c : Call) (s : Sem) (h : semCallO n T c = some s) :
+    semCall (n + k) T c = s :=
+  semCall_stable n k T c s h
+
+/-- …and so is the verdict of the comparison: more fuel never changes it. -/
+theorem equiv_fuel_stable (n k : Nat) (T U : Tab) (c d : Call) (s t : Sem)
+    (hT : T.wf = true) (hU : U.wf = true) (hc : c.wf = true) (hd : d.wf = true)
+    (hcc : c.completeIn T = true) (hdc : d.completeIn U = true)
+    (h1 : semCallO n T c = some s) (h2 : semCallO n U d = some t) :
+    equivCall Gen.c15SelfCompare (n + k) T U c d = equivCall Gen.c15SelfCompare n T U c d := by
+  have e1 := equivCall_iff_sem_eq (n + k) T U c d hT hU hc hd hcc hdc
+  have e0 := equivCall_iff_sem_eq n T U c d hT hU hc hd hcc hdc
+  rw [semCall_stable n k T c s h1, semCall_stable n k U d t h2] at e1
+  have z1 := semCall_stable n 0 T c s h1
+  have z2 := semCall_stable n 0 U d t h2
+  simp only [Nat.add_zero] at z1 z2
+  rw [z1, z2] at e0
+  exact Bool.eq_iff_iff.mpr (e1.trans e0.symm)
+
 /-! Non-vacuity: a well-formed program with a pipeline, a stage, a map literal,
 a disabled condition; it is equivalent to itself with a renamed scalar file type
 and the stage declared under another name (aliased back), and not to itself
@@ -133,6 +158,8 @@ private def topCall (v : Int) : Call :=
 
 example : (Prog.mk (demoTab kA [116] false) (topCall 1)).wf = true := by decide
 example : (Prog.mk (demoTab [67] [117] true) (topCall 1)).wf = true := by decide
+example : (semCallO 2 (demoTab kA [116] false) (topCall 1)).isSome = true
+    ∧ (semCallO 1 (demoTab kA [116] false) (topCall 1)).isSome = false := by decide
 example : equivCall false 3 (demoTab kA [116] false) (demoTab [67] [117] true) (topCall 1) (topCall 1) = true := by
   decide
 example : equivCall false 3 (demoTab kA [116] false) (demoTab kA [116] false) (topCall 1) (topCall 2) = false := by
